@@ -65,6 +65,9 @@ func runC11(c Case, st *Stats) error {
 	if hasMerge {
 		classes = append(classes, "workload-with-merge-call")
 	}
+	if rc.Faults > 0 {
+		classes = append(classes, "commit-with-injected-write-error-in-workload")
+	}
 	if rc.MergeOK > 0 {
 		classes = append(classes, "workload-with-successful-merge")
 	}
@@ -77,6 +80,6 @@ func runC11(c Case, st *Stats) error {
 func init() { register("C11", runC11) }
 
 func TestC11(t *testing.T) {
-	p := wlParams{Modes: []int{0, 0, 1, 2}, Segs: []int64{200, 333, 1024}, MaxSteps: 10, ReopenPct: 8, FailPct: 12, MergePct: 10, Structs: true, SyncOnly: true}
+	p := wlParams{Modes: []int{0, 0, 1, 2}, Segs: []int64{200, 333, 1024}, MaxSteps: 10, ReopenPct: 8, FailPct: 12, FaultPct: 8, MergePct: 10, Structs: true, SyncOnly: true}
 	runProperty(t, "C11", genWorkload(p), runC11)
 }
